@@ -177,4 +177,13 @@ def hexOf (bs : List Nat) : String :=
   let hd := fun (n : Nat) => if n < 10 then Char.ofNat (48 + n) else Char.ofNat (87 + n)
   "x" ++ String.mk (bs.flatMap fun b => [hd (b / 16), hd (b % 16)])
 
+/-- FNV-1a, 64 bit -/
+def fnv64 (bs : List Nat) : UInt64 :=
+  bs.foldl (fun h b => (h ^^^ UInt64.ofNat b) * 1099511628211) 14695981039346656037
+
+/-- bytes accepted by a failing writer as the harness reports them: hex when short, otherwise
+length and FNV-1a hash (an output of several kilobytes at every fault point would be gigabytes) -/
+def encAccepted (bs : List Nat) : String :=
+  if bs.length ≤ 96 then hexOf bs else s!"y{bs.length}:{(fnv64 bs).toNat}"
+
 end Sqroot.Driver
